@@ -397,7 +397,9 @@ def report(ctx, pid, rep=None, trs=(), scale=None):
             if mm.get("field") == "harness":
                 raise vf.Infra("replay harness problem: %s (%s)" % (mm.get("problem"), compact(mm.get("a") or {})))
             dev, site = classify(mm)
-            owner = DEV_OWNER.get(dev) if dev else FIELD_OWNER.get(mm.get("field"))
+            # a difference that no known deviation explains is reported by every flood check that sees it (like an
+            # unexplained trace rejection): the code has left the verified design in an unknown way
+            owner = DEV_OWNER.get(dev) if dev else pid
             mm["classified"] = dev
             if owner != pid and not SELFTEST:
                 ctx.add("mismatches_owned_by_other_properties")
